@@ -186,7 +186,12 @@ def build(tier="quick", seed=0):
         r = it.call(base.g["extend_record"], [it.call(P, [], {}), []], {"name": name_v})
         return it.getattr_(r, "_desc")
 
-    ENTRIES = {"merge_api": entry_merge_api, "extend_api": entry_extend_api, "api_clone": entry_api_clone, "api_one_string": entry_api_one_string, "stream_nested": entry_stream_nested, "api": entry_api, "stream": entry_stream, "json": entry_json, "avro_doc": entry_avro_doc, "avro_schema": entry_avro_schema, "grouped_api": entry_grouped_api, "grouped_stream": entry_grouped_stream}
+    def entry_descriptor_extend(name_v, fields_v):
+        # RecordDescriptor.extend(fields): the extra (type, name) pairs are new text, the type name is the one of the (accepted) descriptor
+        P = it.call(RD, ["c06/p", [("string", "kept")]], {})
+        return it.call(it.getattr_(P, "extend"), [list(fields_v)], {})
+
+    ENTRIES = {"descriptor_extend": entry_descriptor_extend, "merge_api": entry_merge_api, "extend_api": entry_extend_api, "api_clone": entry_api_clone, "api_one_string": entry_api_one_string, "stream_nested": entry_stream_nested, "api": entry_api, "stream": entry_stream, "json": entry_json, "avro_doc": entry_avro_doc, "avro_schema": entry_avro_schema, "grouped_api": entry_grouped_api, "grouped_stream": entry_grouped_stream}
     SHAPES = {
         "one_field": lambda: [(SStr(tn), SStr(fn))],
         "no_field": lambda: [],
@@ -212,6 +217,10 @@ def build(tier="quick", seed=0):
                     it.assume(part_cond(part))
                 if shape == "two_fields":
                     it.assume(fn != fn2)
+                if entry == "descriptor_extend":  # (a name declared twice is the case of C06.dup.fields; here the added names are new ones)
+                    it.assume(fn != z3.StringVal("kept"))
+                    if shape == "two_fields":
+                        it.assume(fn2 != z3.StringVal("kept"))
                 if entry == "avro_schema" and shape == "two_fields":
                     return ENTRIES[entry]("ns.t", fields_v)  # (the derived name is symbolic in the one_field / no_field obligations; here the two field names are)
                 return ENTRIES[entry](SStr(nm), fields_v)
@@ -250,7 +259,7 @@ def build(tier="quick", seed=0):
                 if st != "proved":
                     return (z3.And(conj), f"text that is not an identifier reaches exec (leaves {[str(l)[:60] for l in leaves][:4]})")
                 # declared names as validated on this path
-                goal = [z3.InRe(nm, TYPENAME)]
+                goal = [z3.InRe(nm, TYPENAME)] if entry != "descriptor_extend" else []
                 if shape in ("one_field",):
                     goal += [z3.InRe(tn, WLSPEC), z3.InRe(fn, IDENT)]
                 if shape in ("two_fields",):
@@ -278,8 +287,12 @@ def build(tier="quick", seed=0):
                 tname = solver.zs(mdl.eval(nm, model_completion=True))
                 if entry == "avro_schema":
                     tname = None  # derived name: only its shape is checked
+                if entry == "descriptor_extend":
+                    tname = "c06/p"
                 fl = {"one_field": [fn], "no_field": [], "two_fields": [fn, fn2], "same_field_twice": [fn]}[shape]
                 declared = [solver.zs(mdl.eval(f, model_completion=True)) for f in fl]
+                if entry == "descriptor_extend":
+                    declared = ["kept"] + declared
                 if entry.startswith("grouped"):
                     declared = ["s"]  # the flat descriptor of the group: the field of its (valid) member
                 if entry == "avro_schema":
@@ -295,7 +308,7 @@ def build(tier="quick", seed=0):
 
         return Obligation(name, run, replay=lambda w: {"call": "c06_definition", "args": w if w else {"entry": entry}}, functions=FU_GATE + {"stream": ("flow.record.packer:RecordPacker.unpack_obj", "flow.record.base:RecordDescriptor._unpack"), "json": ("flow.record.jsonpacker:JsonRecordPacker.unpack_obj",),
                                                                                                               "avro_doc": ("flow.record.adapter.avro:schema_to_descriptor",), "avro_schema": ("flow.record.adapter.avro:schema_to_descriptor", "flow.record.adapter.avro:avro_type_to_flow_type"), "api": (),
-                                                                                                              "merge_api": ("flow.record.base:merge_record_descriptors",), "extend_api": ("flow.record.base:extend_record",), "api_clone": (), "api_one_string": ("flow.record.base:parse_def (assumed: returns some name and some pairs)",), "stream_nested": ("flow.record.packer:RecordPacker.unpack_obj", "flow.record.base:RecordDescriptor._unpack"), "grouped_api": ("flow.record.base:GroupedRecord.__init__",), "grouped_stream": ("flow.record.packer:RecordPacker.unpack_obj", "flow.record.base:GroupedRecord.__init__")}[entry])
+                                                                                                              "merge_api": ("flow.record.base:merge_record_descriptors",), "extend_api": ("flow.record.base:extend_record",), "descriptor_extend": ("flow.record.base:RecordDescriptor.extend",), "api_clone": (), "api_one_string": ("flow.record.base:parse_def (assumed: returns some name and some pairs)",), "stream_nested": ("flow.record.packer:RecordPacker.unpack_obj", "flow.record.base:RecordDescriptor._unpack"), "grouped_api": ("flow.record.base:GroupedRecord.__init__",), "grouped_stream": ("flow.record.packer:RecordPacker.unpack_obj", "flow.record.base:GroupedRecord.__init__")}[entry])
 
     for entry in ENTRIES:
         for shape in SHAPES:
@@ -304,6 +317,8 @@ def build(tier="quick", seed=0):
             if entry in ("api_clone", "stream_nested", "merge_api", "extend_api") and shape != "no_field":
                 continue  # (only the NAME is new text in these forms; the field list is that of an already accepted descriptor)
             if entry == "api_one_string" and shape not in ("one_field", "no_field"):
+                continue
+            if entry == "descriptor_extend" and shape not in ("one_field", "two_fields"):
                 continue
             if entry.startswith("grouped") and shape != "no_field":
                 continue  # (the name of the group is the only text a grouped record defines itself; its members are definitions of their own)
